@@ -317,7 +317,9 @@ def pubKeyFromHex (o : KeyOracle) (xOnly : Bool) (key : List Char) : P (Bytes ×
 def fixedPubKey (o : KeyOracle) (xOnly : Bool) (key : List Char) : P (Bytes × Bool) :=
   if key.all isHexDigit then pubKeyFromHex o xOnly key
   else match o.wif key with
-    | some sec => .ok (sec, xOnly)
+    | some sec =>
+      -- an x-only key is held as its even-y SEC form, whatever the y of the WIF's point
+      .ok (if xOnly && sec.length == 33 then 2 :: sec.drop 1 else sec, xOnly)
     | none => .error .value
 
 /-- `_parse_key(expression, prv_keys, x_only=, compressed=, musig_allowed=)` -/
@@ -414,7 +416,9 @@ def parseTree (o : KeyOracle) : Nat → Nat → List Char → P Tree
       | .ok _ => .error .value
     else
       let name := e.takeWhile (· != '(')
-      if isTreeFn name then
+      -- a leaf that has a `(` ends with `)`: `_split_arguments` counts `}` as it counts `)`
+      if e.contains '(' && e.getLast? != some ')' then .error .value
+      else if isTreeFn name then
         match splitArgs (inner name e) with
         | .error x => .error x
         | .ok args =>
